@@ -190,6 +190,26 @@ class OneOf(Type):
         raise RuntimeError("OneOf must be expanded by the driver")
 
 
-def Maze(cls="LatticeMaze", count=False, **extra):
-    """a maze object: connection_list is a bool grid (D, R, C); D, R, C >= 0 symbolic"""
-    return RecT(cls, connection_list=GridT("bool", [None, None, None], count=count), **extra)
+def Maze(cls="LatticeMaze", count=False, lattice_dim=2, **extra):
+    """a maze object: connection_list is a bool grid (2, R, C) with R, C >= 0 symbolic.
+    (The leading dimension is the constant 2: `ConnectionList = Bool[np.ndarray, "lattice_dim=2 row col"]`.)"""
+    return RecT(cls, connection_list=GridT("bool", [lattice_dim, None, None], count=count), **extra)
+
+
+class GuardedRowsT(Type):
+    """result of np.array([... filtered comprehension over n candidates ...]): at most n rows of `width` ints"""
+
+    def __init__(self, n, width=2):
+        self.n = n
+        self.width = width
+
+    def fresh(self, name):
+        from .values import GList
+        from . import npmodel as M
+
+        items = []
+        for k in range(self.n):
+            g = z3.Bool(fresh_name(f"{name}_g{k}"))
+            v = Arr((self.width,), [z3.Int(fresh_name(f"{name}_v{k}_{c}")) for c in range(self.width)], "int")
+            items.append((g, v))
+        return M.Rows(GList(items), self.width), []
